@@ -36,8 +36,14 @@ Set(id, w) ==
   /\ h' = Append(h, <<id, w>>)
   \* encoding then decoding, and copying, yield the same set in the same order: the harness reads the
   \* form of rlp.Decode(rlp.Encode(v)) and of v.Copy() and reports whether each equals the form of v
-  \* (which itself is compared with Form(m') below)
-  /\ act' = [op |-> "set", id |-> id, w |-> w, rlp_same |-> TRUE, copy_same |-> TRUE, builder_same |-> TRUE]
+  \* (which itself is compared with Form(m') below).
+  \* Decoding REPLACES whatever the receiver held: the encoding of v is also decoded
+  \*   - into a receiver that already holds an unrelated set (ids 1, 2, 3 and 9),
+  \*   - into a by-value copy of the set built BEFORE this call (the pre-state's set),
+  \* each must then show exactly the form of v and re-encode to the same bytes, and the set built
+  \* before the call (whose map the by-value copy shares) must still show the pre-state's form.
+  /\ act' = [op |-> "set", id |-> id, w |-> w, rlp_same |-> TRUE, copy_same |-> TRUE, builder_same |-> TRUE,
+             decode_into_other_same |-> TRUE, decode_into_prev_copy_same |-> TRUE, prev_unchanged |-> TRUE]
 
 Next == \E id \in Ids, w \in Weights : Set(id, w)
 Spec == Init /\ [][Next]_vars
@@ -50,6 +56,10 @@ IndexInverse == LET v == SetOf(m) IN \A k \in 1..Cardinality(DOMAIN v) : Rank(v,
 \* weights listed in descending order and they add up to the total
 WeightsDescending == LET s == SortedWeights(SetOf(m)) IN \A k \in 1..(Len(s) - 1) : s[k] >= s[k + 1]
 \* the map is the last non-overwritten Set per id: the form depends on the pairs, not on the history
+\* decoding into an occupied receiver: the result is the decoded set, not the union with the old content
+\* (stated on the maps: replacing is not merging whenever the old set has a member the new one lacks)
+ReplaceNotMerge == [][(\E i \in Ids : m[i] # 0 /\ m'[i] = 0) =>
+                       SetOf(m') # [i \in DOMAIN SetOf(m) \cup DOMAIN SetOf(m') |-> IF i \in DOMAIN SetOf(m') THEN SetOf(m')[i] ELSE SetOf(m)[i]]]_vars
 LastWriteWins == \A i \in Ids :
   LET P == {k \in 1..Len(h) : h[k][1] = i} IN
   m[i] = IF P = {} THEN 0 ELSE h[CHOOSE k \in P : \A k2 \in P : k2 <= k][2]
